@@ -202,9 +202,15 @@ def gensym_xproc(ctx: Ctx) -> None:
     repo = ctx.repo
     merge = repo.get(f"{A.PLAN}.arrays_to_dag")
     detects = False
-    for n in merge.own_nodes():
-        # any comparison of node payloads / raise on duplicate names in the merge point
-        if isinstance(n, ast.Raise):
+    from .runtime import facts_at
+
+    mcfg = cfg_of(merge)
+    for bn in mcfg.stmts(ast.Raise):
+        # a refusal in the merge point that depends on the graphs' nodes / names (a spec
+        # check, or any other refusal, is not a collision test)
+        conds = " ".join(unparse(t, 200) for t, _ in facts_at(mcfg, bn.id))
+        conds += " " + " ".join(unparse(mcfg.nodes[lp].stmt.iter, 200) for lp in bn.loops if isinstance(mcfg.nodes[lp].stmt, ast.For))
+        if any(w in conds for w in (".nodes", ".name", "dag")):
             detects = True
     for g in [d for d in repo.functions() if d.name == "gensym" and d.parent is None and d.module.qual in (A.ARRAY, A.PLAN)]:
         rets = [n for n in g.own_nodes() if isinstance(n, ast.Return) and n.value is not None]
